@@ -52,9 +52,9 @@ class SimRaw(io.RawIOBase):
         if self._fault is not None and self._fault["kind"] == "eof" and self._pos >= self._fault["at"]:
             self.fired = True  # the consumer has now been handed a truncated document
             self.stats["fault-eof"] = self.stats.get("fault-eof", 0) + 1
-        self.stats["reads"] = self.stats.get("reads", 0) + 1
+        self.stats["stream-reads"] = self.stats.get("stream-reads", 0) + 1
         if n < len(b):
-            self.stats["short-reads"] = self.stats.get("short-reads", 0) + 1
+            self.stats["stream-short-reads"] = self.stats.get("stream-short-reads", 0) + 1
         return n
 
 
@@ -109,10 +109,10 @@ class SimText(io.TextIOBase):
             n = min(size, self._chunks[self._k % len(self._chunks)], lim - self._pos)
             self._k += 1
             if 0 <= n < size:
-                self.stats["short-reads"] = self.stats.get("short-reads", 0) + 1
+                self.stats["stream-short-reads"] = self.stats.get("stream-short-reads", 0) + 1
         out = self._data[self._pos : self._pos + max(n, 0)]
         self._pos += len(out)
-        self.stats["reads"] = self.stats.get("reads", 0) + 1
+        self.stats["stream-reads"] = self.stats.get("stream-reads", 0) + 1
         self._note_truncation()
         return out
 
